@@ -417,16 +417,17 @@ func (r *rec) doGroup() {
 	r.expectRes("done")
 }
 
-// redirects after a compound command.  A reserved word right after such a
-// redirection is a position the standard does not clearly make a reserved-word
-// position: unsure.
+// redirects after a compound command.
 func (r *rec) redirects(compound bool) {
 	n := 0
 	for r.redirect() {
 		n++
 	}
-	if n > 0 && compound && r.anyRes() {
-		panic(fail{Unsure})
+	if n > 0 && compound && r.isWord() {
+		// after a redirection the next word is not in a position where reserved
+		// words are recognised (bash and dash agree): a plain word follows a
+		// compound command, which nothing derives
+		r.bad()
 	}
 }
 
